@@ -17,7 +17,9 @@ class Budget(Exception):
 
 
 class Graph:
-    def __init__(self, n, adj, pos=None, inst=None, budget=4000, words=None):
+    def __init__(self, n, adj, pos=None, inst=None, budget=4000, words=None, fresh=True):
+        if fresh:
+            rt.begin()
         self.n = n
         self.adj = adj
         self.pos = pos or ['n'] * n
@@ -137,7 +139,7 @@ class Graph:
 
     def _install_real(self):
         import wn
-        rt.DB()
+        rt.DB(fresh=False)
         rt.quiet_add(self.resource())
         self.wordnet = wn.Wordnet('G:1', expand='')
         by_id = {s.id: s for s in self.wordnet.synsets()}
